@@ -263,7 +263,13 @@ pub fn app_layer(scratch: &crate::world::app::Scratch, net: &Net, st: &mut Stats
     spec.algorithm = json!({"type": "a*", "weight_factor": 1.0});
     spec.road_classes = Some(classes.clone());
     // the vehicle of the queries is lighter than the weight limit and taller than the height limit: one row met, one exceeded
-    spec.vehicle_restrictions = Some(vec![(e0, "maximum_total_weight".into(), 5.0, "tons".into()), (e0, "maximum_height".into(), 4.0, "meters".into())]);
+    // (the two rows of the edge are not neighbours in the file: the exceeded one first, a row of another edge that binds no
+    // vehicle in between, the met one last)
+    spec.vehicle_restrictions = Some(if m > 1 {
+        vec![(e0, "maximum_height".into(), 4.0, "meters".into()), ((e0 + 1) % m, "maximum_width".into(), 100.0, "meters".into()), (e0, "maximum_total_weight".into(), 5.0, "tons".into())]
+    } else {
+        vec![(e0, "maximum_total_weight".into(), 5.0, "tons".into()), (e0, "maximum_height".into(), 4.0, "meters".into())]
+    });
     spec.frontier = json!({"type": "combined", "models": [
         {"type": "road_class", "road_class_input_file": "$DIR/road_classes.txt", "road_class_parser": {"mapping": {"local": 0, "highway": 1}}},
         {"type": "vehicle_restriction", "vehicle_restriction_input_file": "$DIR/vehicle_restrictions.csv"}
